@@ -499,6 +499,9 @@ class DAGRunConcurrentManager(DAGRunManagerLike):
 
         logger.debug('Start DAG execution, dag=%s', str(dag))
 
+        # The nodes invalidated by a restart of a recurrent subgraph are executed again when somebody needs them
+        self._node_storage.hide_invalidated_execution(dag)
+
         list_node_ids = self._get_node_order(dag)
 
         if len(list_node_ids) == 0:
@@ -593,6 +596,9 @@ class DAGRunConcurrentManager(DAGRunManagerLike):
             )
 
             logger.debug('Prepare [%s]%s to start. OneOf result node %s', idx, oneof_dag, node_id)
+
+            # A result from before a restart of a recurrent subgraph must not be taken for the result of the candidate
+            self._node_storage.hide_invalidated_execution(oneof_dag)
 
             self._create_task(coro=self._run_dag(dag=oneof_dag), name=str(oneof_dag))
 
@@ -807,7 +813,8 @@ class DAGRunConcurrentManager(DAGRunManagerLike):
         nodes_to_restart = list(recurrent_subgraph)
 
         # ... but it is executed like any other DAG: the case nodes of a switch and the candidates of a OneOf are run
-        # by their switch / OneOf when they are selected, not as ordinary nodes of the subgraph.
+        # by their switch / OneOf when they are selected, not as ordinary nodes of the subgraph. A node that is not
+        # needed again keeps its result.
         recurrent_subgraph = get_restricted_subgraph(
             self._get_reduced_dag(self.dag.input_node, node_id), recurrent_subgraph,
         )
@@ -820,8 +827,8 @@ class DAGRunConcurrentManager(DAGRunManagerLike):
             # The DAG is shared between runs, so the data for the next iteration is kept in the manager
             self._additional_data[start_from_node_id] = node_result.data
 
-            logger.debug('Hide previous node results for recurrent subgraph %s', nodes_to_restart)
-            self._node_storage.hide_last_execution(*nodes_to_restart)
+            logger.debug('Invalidate previous node results for recurrent subgraph %s', nodes_to_restart)
+            self._node_storage.invalidate_last_execution(*nodes_to_restart)
 
             node_result = await self._run_dag(dag=recurrent_subgraph)
 
